@@ -1,24 +1,32 @@
 """C02 - the core language evaluates as the Jsonnet specification defines.
 
 spec/Sem.tla is a big-step call-by-name reference semantics of the core language; TLC
-enumerates closed programs of six grammar slices (spec/MC_Sem.tla), evaluates each with
+enumerates closed programs of seven grammar slices (spec/MC_Sem.tla), evaluates each with
 Sem!Run and prints source text + expected outcome; the real implementation must produce
-the same JSON / the same error (kind and message for `error` and assertions)."""
+the same JSON / the same error (kind and message for `error` and assertions).
+
+The slice "lib" covers the library members whose laziness is part of their definition
+(Sem!LibCall: which array elements / object fields / arguments are forced, in which order
+failures surface).  Members on which rsjsonnet differs from the text of upstream std.jsonnet
+are named deviations (Sem!StdReading, DEV-1..DEV-9): the check compares with the "rsjsonnet"
+reading and records, as evidence, how many generated programs tell the two readings apart."""
 import json
 import os
+import re
 
 import vlib
 import semcmp
 from vlib import Check, run_tlc, tlc_must_pass, run_cases
 
 PROP = "C02"
-SLICES = ["arith", "str", "lazy", "func", "obj", "comp"]
-QUICK_SAMPLE = {"arith": 1500, "str": 800, "lazy": 400, "func": 800, "obj": 1500, "comp": 800}
+SLICES = ["arith", "str", "lazy", "func", "obj", "comp", "lib"]
+# per part of a slice (MC_Sem!Init samples every part separately)
+QUICK_SAMPLE = {"arith": 1500, "str": 800, "lazy": 400, "func": 800, "obj": 1500, "comp": 800, "lib": 150}
 
 
-def sem_cfg(slice_, sample, fuel=40, module_consts="", rmmode=1):
+def sem_cfg(slice_, sample, fuel=40, module_consts="", rmmode=1, tag=""):
     d = vlib.workdir("tlc")
-    path = os.path.join(d, f"gen_sem_{slice_}_{sample}_{rmmode}.cfg")
+    path = os.path.join(d, f"gen_sem_{slice_}_{sample}_{rmmode}{tag}.cfg")
     with open(path, "w") as f:
         f.write(f'CONSTANTS Slice = "{slice_}" Sample = {sample} Fuel = {fuel} RmMode = {rmmode}\n{module_consts}'
                 "INIT Init\nNEXT Next\nINVARIANT Emit\nCHECK_DEADLOCK FALSE\n")
@@ -43,8 +51,79 @@ def generate(chk, tier, seed, slices=SLICES, module="MC_Sem", label="c02"):
     return out
 
 
+STD_CALL = re.compile(r"std\.(\w+)\(")
+# the library members specified by Sem!LibCall (the others met in the lib slice are older: length, map, ...)
+LIB_MEMBERS = {"foldr", "filterMap", "mapWithIndex", "flatMap", "flattenArrays", "flattenDeepArray", "member", "contains",
+               "count", "all", "any", "repeat", "reverse", "range", "remove", "removeAt", "find", "join", "objectValues",
+               "objectValuesAll", "objectKeysValues", "objectKeysValuesAll", "objectHasEx", "objectFieldsEx", "isString",
+               "isNumber", "isBoolean", "isObject", "isArray", "isFunction", "isNull", "xor", "xnor", "isEven", "isOdd",
+               "isInteger", "isDecimal", "__array_less", "__array_less_or_equal", "__array_greater",
+               "__array_greater_or_equal", "deepJoin", "avg", "sum", "minArray", "maxArray", "lines", "slice", "abs",
+               "sign", "max", "min", "clamp"}
+
+
+def builtins_of(src):
+    return sorted(set(STD_CALL.findall(src)))
+
+
+def outcome_class(spec):
+    return spec[0] if spec[0] != "err" else "err:" + spec[1]
+
+
+def lib_deviations(chk, tier, seed, progs):
+    """Evidence only: the same lib programs under the upstream reading of the named deviations
+    (Sem!StdReading); how many programs tell the readings apart, per builtin."""
+    sample = QUICK_SAMPLE["lib"] if tier == "quick" else 0
+    cfg = sem_cfg("lib", sample, module_consts="CONSTANT StdReading <- UpstreamReading\n", tag="_up")
+    res = run_tlc("MC_Sem", cfg, "c02_lib_upstream", workers=8, seed=seed, timeout=3000, coverage=False)
+    tlc_must_pass(res, "Sem slice lib, upstream reading")
+    chk.add_tlc(res, f"slice lib under StdReading = upstream (sample={sample}; evidence only)")
+    up = {c["src"]: c["res"] for c in res.lines("CASE")}
+    by, examples, n = {}, {}, 0
+    for sl, src, spec in progs:
+        if sl != "lib" or src not in up or up[src] == spec:
+            continue
+        n += 1
+        for fn in builtins_of(src):
+            k = f"{fn}: rsjsonnet={outcome_class(spec)} upstream={outcome_class(up[src])}"
+            by[k] = by.get(k, 0) + 1
+            examples.setdefault(k, src)
+    chk.extra["lib_named_deviations"] = {"programs_telling_readings_apart": n, "by_builtin": by, "examples": examples}
+
+
+MIX_TIMEOUT_S = 600      # per simulation run; Sem's fuel bounds the depth of an evaluation, not its work
+MIX_MIN_CASES = 200      # a run cut short must have delivered at least this many complete cases
+
+
+def _complete_cases(out_path):
+    """The CASE lines of a TLC output file that parse (a partially written last line is dropped)."""
+    prefix = '<<"CASE", '
+    cases, has_error = [], False
+    with open(out_path, "r", errors="replace") as f:
+        for line in f:
+            if line.startswith("Error:"):
+                has_error = True
+            if not line.startswith(prefix):
+                continue
+            lit = line[len(prefix):].rstrip()
+            if lit.endswith(">>"):
+                lit = lit[:-2]
+            try:
+                c = json.loads(json.loads(lit))
+                if isinstance(c, dict) and "src" in c and "res" in c:
+                    cases.append(c)
+            except Exception:
+                pass
+    return cases, has_error
+
+
 def generate_mixed(chk, tier, seed, ncases=None, label="c02"):
-    """Random deep programs (grammar walk, spec/MC_SemMix.tla, TLC -simulate)."""
+    """Random deep programs (grammar walk, spec/MC_SemMix.tla, TLC -simulate).
+
+    Every CASE line is complete and independent of the others.  A walk can build a program on which the
+    reference semantics does an astronomic amount of work within its fuel (e.g. mutually recursive locals
+    that denote an infinitely nested array): a run that exceeds MIX_TIMEOUT_S is cut there and the cases it
+    printed so far are its sample (recorded in coverage.mix_runs_cut_short)."""
     out = []
     seen = set()
     for steps in ((6, 9) if tier == "quick" else (5, 7, 9, 12)):
@@ -52,11 +131,26 @@ def generate_mixed(chk, tier, seed, ncases=None, label="c02"):
         path = os.path.join(vlib.workdir("tlc"), f"gen_mix_{steps}.cfg")
         with open(path, "w") as f:
             f.write(f"CONSTANTS Steps = {steps} Fuel = 60 RmMode = 1\nINIT Init\nNEXT Next\nINVARIANT Emit\nCHECK_DEADLOCK FALSE\n")
-        res = run_tlc("MC_SemMix", path, f"{label}_mix{steps}", workers=1, seed=seed + steps, depth=steps + 1,
-                      env={"NCASES": str(n)}, timeout=3000, coverage=False, extra=["-simulate"])
-        tlc_must_pass(res, f"mixed programs, {steps} steps")
-        chk.add_tlc(res, f"mixed slice: random walks of {steps} steps")
-        for c in res.lines("CASE"):
+        name = f"{label}_mix{steps}"
+        try:
+            res = run_tlc("MC_SemMix", path, name, workers=1, seed=seed + steps, depth=steps + 1,
+                          env={"NCASES": str(n)}, timeout=MIX_TIMEOUT_S, coverage=False, extra=["-simulate"])
+            tlc_must_pass(res, f"mixed programs, {steps} steps")
+            chk.add_tlc(res, f"mixed slice: random walks of {steps} steps")
+            cases = list(res.lines("CASE"))
+        except vlib.ToolError as e:
+            if "timed out" not in str(e):
+                raise
+            cases, has_error = _complete_cases(os.path.join(vlib.workdir("tlc"), name + ".out"))
+            if has_error or len(cases) < MIX_MIN_CASES:
+                raise vlib.ToolError(f"{e} (only {len(cases)} complete cases before the limit)")
+            chk.extra.setdefault("mix_runs_cut_short", {})[f"{steps} steps"] = {
+                "limit_s": MIX_TIMEOUT_S, "cases_delivered": len(cases), "cases_requested": n}
+            chk.tlc_runs.append({"label": f"mixed slice: random walks of {steps} steps (cut short after {MIX_TIMEOUT_S} s)",
+                                 "distinct": 0, "generated": len(cases), "depth": steps + 1,
+                                 "wall_s": MIX_TIMEOUT_S, "actions": {}})
+            chk.transitions += len(cases)
+        for c in cases:
             if c["src"] not in seen:
                 seen.add(c["src"])
                 out.append(("mix", c["src"], c["res"]))
@@ -65,19 +159,30 @@ def generate_mixed(chk, tier, seed, ncases=None, label="c02"):
 
 def run(tier, seed):
     chk = Check(PROP, tier, seed)
-    chk.rule = ("closed programs of the grammar slices arith/str/lazy/func/obj/comp of spec/MC_Sem.tla and random deep programs (MC_SemMix, simulation) "
+    chk.rule = ("closed programs of the grammar slices arith/str/lazy/func/obj/comp/lib of spec/MC_Sem.tla and random deep programs (MC_SemMix, simulation) "
                 "(quick: seeded random subset per slice part, thorough: all); distinct = source text; "
                 "non-trivial = the specification decides the program (not outside, not fuel-exhausted)")
     chk.assumptions = ["Sem.tla is transcribed from the Jsonnet language definition; numbers restricted to "
                        "integers |n| <= 10^6 (anything else is outside the decided domain)",
-                       "Pretty.tla prints fully parenthesised source text"]
+                       "Pretty.tla prints fully parenthesised source text",
+                       "library members are compared under Sem!StdReading = rsjsonnet; the deviations from the text of upstream "
+                       "std.jsonnet are named in Sem.tla (DEV-1..DEV-9) and counted in coverage.lib_named_deviations"]
     vlib.build_harness()
     progs = generate(chk, tier, seed) + generate_mixed(chk, tier, seed)
     cases = [{"k": "eval", "src": src, "manifest": "multi", "max_stack": 200} for _, src, _ in progs]
     results = run_cases(cases, "c02", timeout_ms=20000)
     classes = {}
+    lib = {}      # vacuity: builtin -> how the programs that reach it are decided / compared
     for (sl, src, spec), case, r in zip(progs, cases, results):
         verdict, detail = semcmp.compare(spec, r)
+        if sl == "lib":
+            for fn in builtins_of(src):
+                t = lib.setdefault(fn, {"ok": 0, "err": 0, "outside": 0, "bottom": 0, "agree": 0, "disagree": 0})
+                t[spec[0]] += 1
+                if verdict == "agree":
+                    t["agree"] += 1
+                elif verdict in ("disagree", "crash"):
+                    t["disagree"] += 1
         classes[f"{sl}:{verdict}:{detail if verdict == 'agree' else ''}"] = classes.get(f"{sl}:{verdict}:{detail if verdict == 'agree' else ''}", 0) + 1
         chk.count(key=src, nontrivial=(verdict in ("agree", "disagree") and detail != "bottom"))
         if verdict == "outside":
@@ -86,9 +191,16 @@ def run(tier, seed):
             chk.disagree({"kind": "sem", "class": "crash", "slice": sl, "msg": detail},
                          f"`{src}` crashed the implementation: {detail}", dict(case, expected=spec))
         elif verdict == "disagree":
-            chk.disagree({"kind": "sem", "class": "wrong-outcome", "slice": sl},
-                         f"`{src}`: {detail}", dict(case, expected=spec))
+            sig = {"kind": "sem", "class": "wrong-outcome", "slice": sl}
+            if sl == "lib":
+                sig["fn"] = "+".join(builtins_of(src))
+                sig["dir"] = f"spec-{spec[0]}/impl-{'ok' if 'ok' in r else 'err'}"
+            chk.disagree(sig, f"`{src}`: {detail}", dict(case, expected=spec))
     chk.extra["outcome_classes"] = classes
+    chk.extra["lib_builtin_outcomes"] = lib
+    chk.extra["lib_members_without_ok_or_without_error_programs"] = sorted(
+        fn for fn in LIB_MEMBERS if lib.get(fn, {}).get("ok", 0) == 0 or lib.get(fn, {}).get("err", 0) == 0)
+    lib_deviations(chk, tier, seed, progs)
     chk.traces_validated = len(cases)
     chk.exhaustive = (tier == "thorough")
     for i in range(0, len(progs), max(1, len(progs) // 5)):
